@@ -569,9 +569,111 @@ def records_name(body):
     return False
 
 
+def _lin(n, env):
+    """ast expression -> ({atom text: coefficient}, constant); names are resolved through env (straight-line assignments)."""
+    if isinstance(n, ast.Constant) and isinstance(n.value, int) and not isinstance(n.value, bool):
+        return {}, n.value
+    if isinstance(n, ast.Name) and n.id in env:
+        return env[n.id]
+    if isinstance(n, ast.BinOp) and isinstance(n.op, (ast.Add, ast.Sub)):
+        la, lc = _lin(n.left, env)
+        ra, rc = _lin(n.right, env)
+        sg = 1 if isinstance(n.op, ast.Add) else -1
+        out = dict(la)
+        for k, v in ra.items():
+            out[k] = out.get(k, 0) + sg * v
+        return {k: v for k, v in out.items() if v}, lc + sg * rc
+    if isinstance(n, ast.Call):
+        # resolve names inside the call so that min(era['untilYear'], self.until_year) is one atom whatever it is bound to
+        return {ast.unparse(n): 1}, 0
+    return {ast.unparse(n): 1}, 0
+
+
+def _diff(a, b):
+    """(a - b) as a constant, or None when the two linear forms differ in their symbolic part."""
+    if a[0] != b[0]:
+        return None
+    return a[1] - b[1]
+
+
+def marking_rules(R, tr):
+    R.rule('R9', 'a rule an era can select is marked used: the marking interval is the closed year interval [era begin, era until] '
+                 'under the comparator find_matching_rules applies', floor=3)
+    g = tr.fn('find_matching_rules')
+    params = [a.arg for a in g.node.args.args]
+    if len(params) != 3:
+        raise AnalysisError('%s: find_matching_rules no longer takes (rules, era_from, era_until)' % g.loc)
+    lo_p, hi_p = params[1], params[2]
+    upper_excl = lower_incl = None
+    for n in ast.walk(g.node):
+        if isinstance(n, ast.Compare) and len(n.ops) == 1:
+            l, r, op = ast.unparse(n.left), ast.unparse(n.comparators[0]), n.ops[0]
+            if isinstance(op, (ast.Gt, ast.GtE)):
+                l, r = r, l
+                op = ast.Lt() if isinstance(op, ast.Gt) else ast.LtE()
+            if not isinstance(op, (ast.Lt, ast.LtE)):
+                continue
+            if 'fromYear' in l and r == hi_p:
+                upper_excl = isinstance(op, ast.Lt)
+            if l == lo_p and 'toYear' in r:
+                lower_incl = isinstance(op, ast.LtE)
+    c = 'tzdb.transformer.find_matching_rules:overlap'
+    R.instance('R9', c, g.loc, 'fromYear %s era_until and era_from %s toYear' % ('<' if upper_excl else '<=', '<=' if lower_incl else '<'))
+    if upper_excl is None or lower_incl is None:
+        R.violation('R9', c, g.loc, 'the overlap test is not (rule.fromYear < or <= era_until) and (era_from <= or < rule.toYear)')
+        return
+    f = tr.fn('Transformer._mark_rules_used_by_zones')
+    era_loops = [n for n in ast.walk(f.node) if isinstance(n, ast.For) and isinstance(n.target, ast.Name) and n.target.id == 'era']
+    if len(era_loops) != 1:
+        raise AnalysisError('%s: expected one `for era in eras` loop in _mark_rules_used_by_zones' % f.loc)
+    loop = era_loops[0]
+    env = {}
+    calls = []
+    carried = {}      # loop-carried assignments after the call (begin_year = era['untilYear'])
+    for s in loop.body:
+        if isinstance(s, ast.Assign) and len(s.targets) == 1 and isinstance(s.targets[0], ast.Name):
+            hit = [x for x in ast.walk(s.value) if isinstance(x, ast.Call) and ast.unparse(x.func) == 'find_matching_rules']
+            if hit:
+                calls.append((hit[0], dict(env)))
+                continue
+            (carried if calls else env)[s.targets[0].id] = _lin(s.value, env if not calls else {**env, **carried})
+    if len(calls) != 1 or len(calls[0][0].args) != 3:
+        raise AnalysisError('%s: expected one find_matching_rules(rules, from, until) call in the era loop' % f.loc)
+    call, cenv = calls[0]
+    c = 'tzdb.transformer.Transformer._mark_rules_used_by_zones:until'
+    R.instance('R9', c, tr.loc(call))
+    hi = _lin(call.args[2], cenv)
+    atoms = [k for k in hi[0] if "era['untilYear']" in k]
+    if len(hi[0]) != 1 or not atoms or hi[0][atoms[0]] != 1:
+        R.violation('R9', c, tr.loc(call), 'the upper bound %s is not the era\'s UNTIL year plus a constant' % ast.unparse(call.args[2]))
+    else:
+        need = 1 if upper_excl else 0
+        if hi[1] < need:
+            R.violation('R9', c, tr.loc(call), 'rules are matched against [.., %s) with the test fromYear %s era_until: a rule whose FROM year is the '
+                        'era\'s UNTIL year is not marked, and is deleted as unused although the era (which ends inside that year) selects it'
+                        % (ast.unparse(call.args[2]), '<' if upper_excl else '<='))
+    c = 'tzdb.transformer.Transformer._mark_rules_used_by_zones:begin'
+    R.instance('R9', c, tr.loc(call))
+    if not (isinstance(call.args[1], ast.Name) and call.args[1].id in carried):
+        R.violation('R9', c, tr.loc(call), 'the lower bound %s is not the loop-carried begin year' % ast.unparse(call.args[1]))
+    else:
+        nxt = carried[call.args[1].id]
+        ok = len(nxt[0]) == 1 and "era['untilYear']" in next(iter(nxt[0])) and nxt[1] <= (0 if lower_incl else -1)
+        if not ok:
+            R.violation('R9', c, tr.loc(call), 'the next era is matched from %s + %d with the test era_from %s toYear: a rule still in effect in the '
+                        'year the previous era ends is not marked' % (next(iter(nxt[0]), '?'), nxt[1], '<=' if lower_incl else '<'))
+        first = [s for s in ast.walk(f.node) if isinstance(s, ast.Assign) and isinstance(s.targets[0], ast.Name)
+                 and s.targets[0].id == call.args[1].id and s not in loop.body]
+        for s in first:
+            v = _lin(s.value, {})
+            if 'self.start_year' in v[0] and v[1] > (-1 if lower_incl else -2):
+                R.violation('R9', c, tr.loc(s), 'the first era is matched from start_year %+d: the year before start_year is needed for the most recent prior transition' % v[1])
+
+
 def run(cfg):
     R = Report('C03', cfg)
     tr = py.load(cfg, TR)
+    marking_rules(R, tr)
     accounting_rules(R, tr)
     role_rules(cfg, R, tr)
     chain_rules(R, tr)
@@ -604,6 +706,18 @@ SELFTEST = [
     dict(id='to-year-not-checked', file='tools/tzdb/transformer.py', find='if not is_year_tiny(from_year) or not is_year_tiny(to_year):', replace='if not is_year_tiny(from_year) or not is_year_tiny(from_year):', rule='R6'),
     dict(id='fstring-percent', file='tools/tzdb/transformer.py', find="""                        f"invalid AT time '{at_time}'")""", replace="""                        f"invalid AT time '{at_time}'" % at_time)""", rule='R7'),
     dict(id='format-arity', file='tools/tzdb/transformer.py', find="""                    "Found %d transitions in year/month '%04d-%02d'" % removal)""", replace="""                    "Found %d transitions in year/month '%04d-%02d'" % (removal[0], removal[1]))""", rule='R7'),
+    dict(id='marking-stops-before-until-year', file='tools/tzdb/transformer.py',
+         find='                matching_rules = find_matching_rules(rules, begin_year,\n                                                     until_year + 1)',
+         replace='                matching_rules = find_matching_rules(rules, begin_year,\n                                                     until_year)', rule='R9', construct=':until'),
+    dict(id='marking-next-era-starts-late', file='tools/tzdb/transformer.py',
+         find="                begin_year = era['untilYear']\n\n        return (zones_map, rules_map)", replace="                begin_year = era['untilYear'] + 1\n\n        return (zones_map, rules_map)", rule='R9', construct=':begin'),
+    dict(id='overlap-test-strict-lower', file='tools/tzdb/transformer.py',
+         find="        if rule['fromYear'] < era_until and era_from <= rule['toYear']:", replace="        if rule['fromYear'] < era_until and era_from < rule['toYear']:", rule='R9'),
+    dict(id='marking-closed-interval-spelling-silent', edits=[
+        dict(file='tools/tzdb/transformer.py', find='                matching_rules = find_matching_rules(rules, begin_year,\n                                                     until_year + 1)',
+             replace='                matching_rules = find_matching_rules(rules, begin_year,\n                                                     until_year)'),
+        dict(file='tools/tzdb/transformer.py', find="        if rule['fromYear'] < era_until and era_from <= rule['toYear']:", replace="        if rule['fromYear'] <= era_until and era_from <= rule['toYear']:")],
+         expect='silent'),
     dict(id='filters-reordered-silent', file='tools/tzdb/transformer.py',
          find="        zones_map = self._remove_zone_eras_too_old(zones_map)\n        zones_map = self._remove_zone_eras_too_new(zones_map)",
          replace="        zones_map = self._remove_zone_eras_too_new(zones_map)\n        zones_map = self._remove_zone_eras_too_old(zones_map)", expect='silent'),
